@@ -245,6 +245,28 @@ theorem batches_spec (mem : List α) (h : Hdr) (hw : h.WF mem.length) (n : Int) 
 example : batches ⟨2, 7, 10⟩ 3 = .ok [⟨2, 3, 3⟩, ⟨5, 2, 2⟩, ⟨7, 2, 2⟩] := by decide
 example : batches ⟨0, 0, 4⟩ 3 = .ok [] := by decide
 
+/-! ## what "capacity-clipped" buys -/
+
+/-- Appending to a returned subslice `c` that is clipped (`cap = len`) or ends where `vs` ends never
+changes an element of `vs` — the clause every subslice returned by Partition, Chunks and Batches
+satisfies (`partition_spec`, `chunks_spec`, `batches_spec`). -/
+theorem append_safe (mem : List α) (vs c : Hdr) (v : α)
+    (hc : c.cap = c.len ∨ c.stop = vs.stop) :
+    window (append mem c v).1 vs = window mem vs := by
+  unfold append
+  by_cases hlt : c.len < c.cap
+  · rw [if_pos hlt]
+    rcases hc with hc | hc
+    · omega
+    · simp only [Hdr.stop] at hc
+      simp only [window, hc, List.drop_set]
+      rw [if_neg (by omega), List.take_set_of_le (by omega)]
+  · rw [if_neg hlt]
+
+/-- an unclipped subslice in the middle of `vs` is what the clause excludes: `Head(vs, 1)` is not
+clipped, and appending to it overwrites `vs[1]` -/
+example : window (append [10, 20, 30] ⟨0, 1, 3⟩ (99 : Int)).1 ⟨0, 3, 3⟩ = [10, 99, 30] := by decide
+
 /-! ## Head, Tail -/
 
 /-- **Head(vs, n)** for `n ≥ 0`: the first `min n (len vs)` elements, as a subslice starting at `vs[0]` -/
